@@ -15,7 +15,7 @@ PLAN = dict(
           "of all n! permutations and seeded random bracketings of the pairwise reduction. Expected winner = "
           "matching candidate maximal under (version descending, name ascending); matching via the real matcher, "
           "version order via the C01 reference where it is free of known finding K1 and via the real order "
-          "otherwise. Non-trivial = at least two matching candidates; distinct by fingerprint of (pattern, list). Later additions: zero-padded digit runs beyond 18 characters; after each list the same characters are split differently between pattern and name (boundary shift) and judged on their own. Round 7: candidate lists of relatives (near-neighbour chains of one version, members of one revision cluster). Round 8: a name and a longer name that begins with it are also passed as two slices of one buffer, both orders. Round 9: candidate lists over digits and separators only (up to five tokens), half of them plain dotted numbers together with an equal-valued respelling of one zero-valued token."),
+          "otherwise. Non-trivial = at least two matching candidates; distinct by fingerprint of (pattern, list). Later additions: zero-padded digit runs beyond 18 characters; after each list the same characters are split differently between pattern and name (boundary shift) and judged on their own. Round 7: candidate lists of relatives (near-neighbour chains of one version, members of one revision cluster). Round 8: a name and a longer name that begins with it are also passed as two slices of one buffer, both orders. Round 9: candidate lists over digits and separators only (up to five tokens), half of them plain dotted numbers together with an equal-valued respelling of one zero-valued token. Round 10: for a brace pattern the candidates that match are decided by the union of its expansions, each compiled on its own; patterns with an empty base and with an empty alternative in last and in middle position."),
     technique="runtime monitor: best_match compared with a reference arg-max, plus permutation/bracketing invariance of the pairwise reduction",
     level_text=("Exploration: ~10^4-10^5 candidate lists, each reduced in every permutation order and several "
                 "bracketings; classes 0/1/2/3+ matching candidates and lists with ties are required."),
